@@ -65,7 +65,8 @@ def check(ctx):
         if rj["cases"] < 5000 or len(rj["executed"]) < 5:
             raise ToolError("vacuous fault enumeration %s" % rj["executed"])
         if tag == "release":
-            ctx.add_samples([{"case_kinds": rj["executed"]}], 1)
+            ctx.add_samples([{"kind": "byte_fault", "frame": "zf:0", "position": 6, "value": 255, "entry_points": ["decode_all_to_vec", "streaming", "decode_blocks+collect", "decode_from_to"]},
+                             {"case_kinds": rj["executed"]}], 2)
             # ring events of the sampled cases against the specification
             cfgr = ctx.path("RingIdx.cfg")
             write_cfg(cfgr, invariants=["Safe"], postcondition="Accepted")
@@ -87,6 +88,9 @@ def check(ctx):
                          7: "a raw copy writes into live data", 8: "an unchecked ring method was called outside its documented precondition"}
                 ctx.violation("ring events recorded under hostile input leave the specification at event %d: %s" % (at, names.get(code, info["record"] or "not an enabled operation")),
                               {"trace_prefix": recs[start:at + 1][-40:]}, tag="ring")
+    ctx.rule = ("every byte position of every enumerated frame x 7 fault values (+ insertion / deletion at 7 positions), every position / truncation "
+                "length of the dictionaries, seeded mutations of real frames, fuzz artefacts; each case = one mutated input run through 4 entry "
+                "points + reuse; distinct = distinct (input, fault) cases executed (a fault equal to the original byte is skipped)")
     ctx.assumptions += ["not exhaustive over byte strings: single-byte faults at every position of every enumerated frame, seeded multi-byte mutations of real frames",
                         "hang = no progress for 30 s on a case that normally takes microseconds", "undefined behaviour outside ringbuffer.rs would have to come from safe Rust and is out of scope"]
     return ctx.finish("fault_enumeration")
